@@ -153,7 +153,7 @@ fn main() {
   ];
   let exe = sandbox::self_exe();
   ctx.threads = ctx.threads.min(8);
-  let n = ctx.n(48, 400);
+  let n = ctx.n(48, 1600);
   ctx.run_cases("scenario", n, |rng: &mut Rng, l: &mut Local, scratch| {
     let a = scratch.join("orig-index-A");
     let b = scratch.join("copy-index-B");
